@@ -65,6 +65,27 @@ class RecvCheckModel(Monitor):
             return
         if rec.exc is not None:
             return
+        if rec.inb_kind == "EOF" and rec.inb_info[1] == 0:
+            # a further copy of the EOF (No Error) PDU while the check procedure runs (duplication is outside the property's
+            # quantifier; it is injected so that nothing ELSE goes wrong around it): it must not end the transaction by
+            # itself while data is outstanding; cfdp-py restarts the check procedure on it, which the model follows
+            w.probe("C13.duplicate_eof_during_check_procedure")
+            same = w.dst_bytes() == w.src_bytes
+            if not same and (fin_inds or lim or rec.post.step != "RECV_FILE_DATA_WITH_CHECK_LIMIT_HANDLING"):
+                w.violate("C13.early", f"duplicate EOF ends the transaction with data outstanding: fin={[i[2] for i in fin_inds]} fault={bool(lim)} post={rec.post.step}",
+                          f"t={t} deadline={self.deadline}")
+                self.done = True
+                return
+            if rec.post.step == "RECV_FILE_DATA_WITH_CHECK_LIMIT_HANDLING":
+                self.deadline = t + self.ms
+                self.count = 0
+                return
+            if same and fin_inds and fin_inds[0][2][:2] == (0, 0) and not lim:
+                # every byte is in: the copy of the EOF PDU lets the receiver verify and complete without waiting for the timer
+                w.probe("C13.success_at_duplicate_eof")
+                self.done = True
+                self.outcome = "success"
+                return
         if t < self.deadline:
             if fin_inds or lim or rec.post.step != "RECV_FILE_DATA_WITH_CHECK_LIMIT_HANDLING":
                 w.violate("C13.early", f"count={self.count} L={self.L} fin={bool(fin_inds)} fault={bool(lim)}", f"t={t} deadline={self.deadline}")
@@ -194,7 +215,12 @@ def run_one(t):
                 slots[i] = t.choose(L + 2, f"slot tile {i}")
             ctx.info["held"] = slots
 
+            dup_eof = t.choose(4, "duplicate eof") == 3
+            dup_after = [C // 3, C + 40, 2 * C + 40][t.choose(3, "duplicate eof after")]
+
             def hook(src_ent, dst, em, key):
+                if key == "a>b EOF" and dup_eof:
+                    return ("dup", dup_after)
                 if key == "a>b FD":
                     i = em.info[1] // cfg.eff_seg
                     if i in slots:
